@@ -175,16 +175,73 @@ package cli
 //@   loop 2 invariant frame: old(c.init) == nil ==> frame(c.Spec)
 
 // --- help printing (C17; here only what Cmd.parse needs: printing help starts no flow and validates nothing) -----------------
-//@ func joinStrings
-//@   ensures any: len(result) >= 0
-//@ func formatEnvVarsForHelp
-//@   ensures any: len(result) >= 0
+// first name of exactly two bytes ("-x") / of more than two bytes ("--name") among names[0:n), "" when there is none
+//@ pure rec func firstShort(names []string, n int) string =
+//@     n <= 0 ? "" : (firstShort(names, n-1) != "" ? firstShort(names, n-1) : (len(names[n-1]) == 2 ? names[n-1] : ""))
+//@ pure rec func firstLong(names []string, n int) string =
+//@     n <= 0 ? "" : (firstLong(names, n-1) != "" ? firstLong(names, n-1) : (len(names[n-1]) > 2 ? names[n-1] : ""))
 //@ func formatOptNamesForHelp
 //@   requires recv: o != nil
-//@   ensures any: len(result) >= 0
+//@   let sh = firstShort(o.Names, len(o.Names))
+//@   let lg = firstLong(o.Names, len(o.Names))
+//@   ensures names: result == ((sh != "" && lg != "") ? fmt_sprintf("%s, %s", seq(toIface("string", sh), toIface("string", lg))) :
+//@       sh != "" ? sh : (lg != "" ? fmt_sprintf("    %s", seq(toIface("string", lg))) : ""))
+//@   loop 1 invariant sofar: short == firstShort(o.Names, $k) && long == firstLong(o.Names, $k)
+
+// joinStrings: the non-blank parts, separated by one blank, in order
+//@ pure rec func joined(parts []string, n int) string =
+//@     n <= 0 ? "" : (strings_TrimSpace(parts[n-1]) == "" ? joined(parts, n-1) :
+//@                    (joined(parts, n-1) != "" ? (joined(parts, n-1) + " ") + parts[n-1] : parts[n-1]))
+//@ func joinStrings
+//@   ensures def: result == joined(parts, len(parts))
+//@   loop 1 invariant sofar: res == joined(parts, $k)
+
+// formatEnvVarsForHelp: "(env $A, $B)" over the blank-separated list, "" when the list is blank
+//@ pure rec func envList(vars []string, n int) string =
+//@     n <= 0 ? "(env" : envList(vars, n-1) + fmt_sprintf("%s$%s", seq(toIface("string", n-1 > 0 ? ", " : " "), toIface("string", vars[n-1])))
+//@ func formatEnvVarsForHelp
+//@   ensures def: result == (strings_TrimSpace(envVars) == "" ? "" : envList(strings_Fields(envVars), len(strings_Fields(envVars))) + ")")
+//@   loop 1 invariant sofar: res == envList(strings_Fields(envVars), $k) && (sep == " " || $k >= 1)
+
+// printTabbedRow: one tabbed row per line of the description, the name on the first only
+//@ pure rec func moreLines(w int, lines []string, n int) trace =
+//@     n <= 1 ? noEvents() : moreLines(w, lines, n-1) ++
+//@         seq(evOut(w, fmt_sprintf("  %s\t%s\n", seq(toIface("string", ""), toIface("string", strings_TrimSpace(lines[n-1]))))))
 //@ func printTabbedRow
+//@   let lines = strings_Split(s2, "\n")
+//@   ensures rows: trace == (old(trace) ++ seq(evOut(ival(w), fmt_sprintf("  %s\t%s\n", seq(toIface("string", s1), toIface("string", strings_TrimSpace(lines[0]))))))) ++
+//@       moreLines(ival(w), lines, len(lines))
 //@   ensures no-flow: noFlow(old(trace), trace)
 //@   loop 1 invariant no-flow: noFlow(old(trace), trace)
+//@   loop 1 invariant rows: trace == (old(trace) ++ seq(evOut(ival(w), fmt_sprintf("  %s\t%s\n", seq(toIface("string", s1), toIface("string", strings_TrimSpace(lines[0]))))))) ++
+//@       moreLines(ival(w), lines, $k + 1)
+
+// --- help text (C17): what is printed, in which order -------------------------------------------------------------------------
+//@ pure func envFmt(envVars string) string = strings_TrimSpace(envVars) == "" ? "" : envList(strings_Fields(envVars), len(strings_Fields(envVars))) + ")"
+//@ pure func valFmt(hide bool, v string) string = (hide || v == "") ? "" : fmt_sprintf("(default %s)", seq(toIface("string", v)))
+//@ pure func optNamesFmt(names []string) string =
+//@     (firstShort(names, len(names)) != "" && firstLong(names, len(names)) != "") ?
+//@         fmt_sprintf("%s, %s", seq(toIface("string", firstShort(names, len(names))), toIface("string", firstLong(names, len(names))))) :
+//@     firstShort(names, len(names)) != "" ? firstShort(names, len(names)) :
+//@     (firstLong(names, len(names)) != "" ? fmt_sprintf("    %s", seq(toIface("string", firstLong(names, len(names))))) : "")
+// rowT: the events of printTabbedRow(w, s1, s2)
+//@ pure func rowT(t trace, w int, s1 string, s2 string) trace =
+//@     (t ++ seq(evOut(w, fmt_sprintf("  %s\t%s\n", seq(toIface("string", s1), toIface("string", strings_TrimSpace(strings_Split(s2, "\n")[0]))))))) ++
+//@     moreLines(w, strings_Split(s2, "\n"), len(strings_Split(s2, "\n")))
+// argRowsT / optRowsT: one row per declared argument / option, in declaration order: name(s), description, env list, default
+//@ pure rec func argRowsT(t trace, w int, xs []*container.Container, n int, NAME array[*container.Container]string, DESC array[*container.Container]string, ENV array[*container.Container]string, HIDE array[*container.Container]bool, DEF array[*container.Container]string) trace =
+//@     n <= 0 ? t : rowT(argRowsT(t, w, xs, n-1, NAME, DESC, ENV, HIDE, DEF), w, NAME[xs[n-1]],
+//@                      joined(seq(DESC[xs[n-1]], envFmt(ENV[xs[n-1]]), valFmt(HIDE[xs[n-1]], DEF[xs[n-1]])), 3))
+//@ pure rec func optRowsT(t trace, w int, xs []*container.Container, n int, NAMES array[*container.Container][]string, NAME array[*container.Container]string, DESC array[*container.Container]string, ENV array[*container.Container]string, HIDE array[*container.Container]bool, DEF array[*container.Container]string) trace =
+//@     n <= 0 ? t : rowT(optRowsT(t, w, xs, n-1, NAMES, NAME, DESC, ENV, HIDE, DEF), w, optNamesFmt(NAMES[xs[n-1]]),
+//@                      joined(seq(DESC[xs[n-1]], envFmt(ENV[xs[n-1]]), valFmt(HIDE[xs[n-1]], DEF[xs[n-1]])), 3))
+// headT: usage line (full path, trimmed spec iff non-empty, COMMAND marker iff it has sub-commands), then the description
+//@ pure func headT(t trace, err int, path string, spec string, nsubs int, desc string) trace =
+//@     ((((t ++ seq(evOut(err, fmt_sprintf("\nUsage: %s", seq(toIface("string", path)))))) ++
+//@        (len(strings_TrimSpace(spec)) > 0 ? seq(evOut(err, fmt_sprintf(" %s", seq(toIface("string", strings_TrimSpace(spec)))))) : noEvents())) ++
+//@       (nsubs > 0 ? seq(evOut(err, fmt_sprint(seq(toIface("string", " COMMAND [arg...]"))))) : noEvents())) ++
+//@      seq(evOut(err, fmt_sprint(seq(toIface("string", "\n\n")))))) ++
+//@     (len(desc) > 0 ? seq(evOut(err, fmt_sprintf("%s\n", seq(toIface("string", desc))))) : noEvents())
 
 //@ func (*Cmd).printHelp
 //@   requires recv: c != nil
@@ -195,6 +252,11 @@ package cli
 //@   maypanic
 //@   ensures wf: allCmdWF(fieldHeap(c.options), fieldHeap(c.args), fieldHeap(c.commands), fieldHeap(c.optionsIdx), fieldHeap(c.argsIdx))
 //@   ensures no-flow: noFlow(old(trace), trace)
+//@   loop 1 invariant rows: trace == argRowsT(headT(old(trace), ival(stdErr), strings_Join(old(c.parents) ++ seq(c.name), " "), c.Spec, len(c.commands), (longDesc && len(c.LongDesc) > 0) ? c.LongDesc : c.desc) ++ seq(evOut(w, fmt_sprint(seq(toIface("string", "\t\nArguments:\t\n"))))), w, c.args, $k, fieldHeap(c.args[0].Name), fieldHeap(c.args[0].Desc), fieldHeap(c.args[0].EnvVar), fieldHeap(c.args[0].HideValue), fieldHeap(c.args[0].DefaultValue))
+//@   loop 2 invariant rows: trace == optRowsT((len(c.args) > 0 ? argRowsT(headT(old(trace), ival(stdErr), strings_Join(old(c.parents) ++ seq(c.name), " "), c.Spec, len(c.commands), (longDesc && len(c.LongDesc) > 0) ? c.LongDesc : c.desc) ++ seq(evOut(w, fmt_sprint(seq(toIface("string", "\t\nArguments:\t\n"))))), w, c.args, len(c.args), fieldHeap(c.args[0].Name), fieldHeap(c.args[0].Desc), fieldHeap(c.args[0].EnvVar), fieldHeap(c.args[0].HideValue), fieldHeap(c.args[0].DefaultValue)) : headT(old(trace), ival(stdErr), strings_Join(old(c.parents) ++ seq(c.name), " "), c.Spec, len(c.commands), (longDesc && len(c.LongDesc) > 0) ? c.LongDesc : c.desc)) ++ seq(evOut(w, fmt_sprint(seq(toIface("string", "\t\nOptions:\t\n"))))),
+//@       w, c.options, $k, fieldHeap(c.args[0].Names), fieldHeap(c.args[0].Name), fieldHeap(c.args[0].Desc), fieldHeap(c.args[0].EnvVar), fieldHeap(c.args[0].HideValue), fieldHeap(c.args[0].DefaultValue))
+//@   loop 3 step filtered: commands == (c.Hidden ? startVal(3, commands) : startVal(3, commands) ++ seq(c))
+//@   loop 4 step row: trace == startTrace(4) ++ seq(evOut(w, fmt_sprintf("  %s\t%s\n", seq(toIface("string", strings_Join(c.aliases, ", ")), toIface("string", c.desc)))))
 //@   loop 1 invariant no-flow: noFlow(old(trace), trace)
 //@   loop 2 invariant no-flow: noFlow(old(trace), trace)
 //@   loop 3 invariant no-flow: noFlow(old(trace), trace)
